@@ -402,13 +402,14 @@ def run(pid, tier, seed, replay):
                   prices="{1, 23, 45, 46, 47, 100}")
     jobs = {
         "free": lambda: vlib.tlc(SPEC, "MCBidEngine", "g.cfg", timeout=1500 if thorough else 600, extra_files={
-            "g.cfg": cfg_text("FairSpec", SAFETY, ["ShutdownTerminates", "TimeoutTerminates"], **free_kw)}),
+            "g.cfg": (cfg_text("FairSpec", SAFETY, ["ShutdownTerminates", "TimeoutTerminates"], **free_kw) if thorough
+                      else cfg_text("Spec", SAFETY, **free_kw))}),   # termination (not part of C13) in the thorough tier
         "asfound": lambda: vlib.tlc(SPEC, "MCBidEngine", "g.cfg", timeout=600, extra_files={
             "g.cfg": cfg_text("Spec", SAFETY, impl="asfound")}),
         "quiet": lambda: vlib.tlc(SPEC, "MCBidEngine", "g.cfg", timeout=1500 if thorough else 600, workers=4, extra_files={
             "g.cfg": cfg_text("Spec", SAFETY + ["OneReady", "ExportDone"], **quiet_kw)}),
         "sim": lambda: vlib.tlc(SPEC, "MCBidEngine", "g.cfg", timeout=600, workers=1, deadlock=False,
-                                simulate=dict(num=4000 if thorough else 600, depth=80, seed=seed),
+                                simulate=dict(num=4000 if thorough else 400, depth=80, seed=seed),
                                 extra_files={"g.cfg": cfg_text("Spec", SAFETY + ["OneReady", "ExportDone"], **sim_kw)}),
     }
     with cf.ThreadPoolExecutor(max_workers=4) as ex:
@@ -423,35 +424,21 @@ def run(pid, tier, seed, replay):
     vlib.log("[C13] J1 free: %d states, %d distinct, depth %d (%.0fs); as-found model violates C13Released as it must; "
              "forced model: %d distinct" % (rs["free"].generated, rs["free"].distinct, rs["free"].depth, rs["free"].wall_s, rs["quiet"].distinct))
 
-    # ---- J2 + J3 ----------------------------------------------------------------------------------------
-    results = []
-    sp = os.path.join(work, "scripts.ndjson")
-    scripts = export_scripts(rs["quiet"], sp, shuffle_seed=seed)
-    if not scripts:
-        raise vlib.Inconclusive("TLC exported no behaviour")
-    results.append(evaluate(vh, "replay", ["-scripts", sp, "-workers", "16"], os.path.join(work, "forced.ndjson"),
-                            "forced replay of every behaviour of the bounded model", scripts))
-    sp2 = os.path.join(work, "scripts_sim.ndjson")
-    scripts2 = export_scripts(rs["sim"], sp2, first_sid=100001)
-    if scripts2:
-        results.append(evaluate(vh, "replay", ["-scripts", sp2, "-workers", "16"], os.path.join(work, "sim.ndjson"),
-                                "forced replay of simulated behaviours of the larger model (seed %d)" % seed, scripts2))
-    nrounds, nper = (12, 3000) if thorough else (1, 1500)
-    for k in range(nrounds):
-        s = seed * 7919 + k
-        results.append(evaluate(vh, "random", ["-seed", str(s), "-n", str(nper), "-workers", "16"],
-                                os.path.join(work, "free%d.ndjson" % k), "free-running randomised driver (seed %d)" % s))
+    # ---- J2 + J3 (in parts, so that only one part's recorded lines are in memory at a time) ---------------
+    acc = dict(violations={}, drift_steps=0, stuck=[], traces=0, lines=0, stimuli=0, cls=set(), st=None, parts=[])
 
-    violations, drift_steps, stuck, traces, lines, stimuli = [], 0, [], 0, 0, 0
-    cls = set()
-    for res in results:
-        violations += violations_of(pid, res, vh)
+    def fold(res):
+        for v in violations_of(pid, res, vh):
+            if v.signature in acc["violations"]:
+                acc["violations"][v.signature].detail += "\n(and more in %s)" % res["what"]
+            else:
+                acc["violations"][v.signature] = v
         for sid, k, l in res["drift"]:
-            drift_steps += 1
+            acc["drift_steps"] += 1
             print("DRIFT property=%s %s: execution %d line %d %s is not a step of the model: %s" % (
                 pid, res["what"], sid, k + 1, json.dumps(l), short(res["by"][sid])), file=sys.stderr, flush=True)
         for o in res["hdrift"]:
-            drift_steps += 1
+            acc["drift_steps"] += 1
             print("DRIFT property=%s %s: execution %d left its script: %s" % (pid, res["what"], o["sid"], o.get("detail")),
                   file=sys.stderr, flush=True)
         for o in res["summ"]["outcomes"]:
@@ -459,14 +446,64 @@ def run(pid, tier, seed, replay):
                 print("DRIFT property=%s %s: execution %d: %s" % (pid, res["what"], o["sid"], n), file=sys.stderr, flush=True)
         if res["unchecked"]:
             vlib.log("[C13] %s: %d execution(s) not conformance-checked after %d drifting ones" % (res["what"], res["unchecked"], len(res["drift"])))
-        stuck += [(res["what"], o) for o in res["stuck"]]
-        traces += len(res["order"])
-        lines += res["summ"]["lines"]
-        stimuli += res["summ"]["steps"]
-        cls |= classes(res)
+        acc["stuck"] += [(res["what"], o) for o in res["stuck"]]
+        acc["traces"] += len(res["order"])
+        acc["lines"] += res["summ"]["lines"]
+        acc["stimuli"] += res["summ"]["steps"]
+        acc["cls"] |= classes(res)
+        nviol = sum(1 for v in res["verdicts"] if not v["ok"])
+        acc["parts"].append({"what": res["what"], "executions": len(res["order"]), "lines": res["summ"]["lines"],
+                             "violating": nviol, "conformant": res["accepted"], "drifting": len(res["drift"]) + len(res["hdrift"])})
         vlib.log("[C13] %s: %d executions, %d lines, %d violating, %d conformant, %d drifting" % (
-            res["what"], len(res["order"]), res["summ"]["lines"], sum(1 for v in res["verdicts"] if not v["ok"]),
-            res["accepted"], len(res["drift"]) + len(res["hdrift"])))
+            res["what"], len(res["order"]), res["summ"]["lines"], nviol, res["accepted"], len(res["drift"]) + len(res["hdrift"])))
+        if acc["st"] is None:
+            st = selftest(res)
+            if st["ok"] or "why" not in st:
+                acc["st"] = st
+
+    sp = os.path.join(work, "scripts.ndjson")
+    scripts = export_scripts(rs["quiet"], sp, shuffle_seed=seed)
+    if not scripts:
+        raise vlib.Inconclusive("TLC exported no behaviour")
+    sids = sorted(scripts)
+    samples = [json.dumps(scripts[i]) for i in sids[:3]]
+    nscripts = len(scripts)
+    PART = 20000
+    thunks = []
+    for a in range(0, len(sids), PART):
+        part = {i: scripts[i] for i in sids[a:a + PART]}
+        pp = os.path.join(work, "scripts_part%d.ndjson" % a)
+        with open(pp, "w") as fh:
+            for i in sids[a:a + PART]:
+                fh.write(json.dumps({"sid": i, "steps": part[i]}) + "\n")
+        what = "forced replay of every behaviour of the bounded model"
+        if len(sids) > PART:
+            what += " (part %d/%d)" % (a // PART + 1, (len(sids) + PART - 1) // PART)
+        thunks.append(lambda pp=pp, what=what, part=part, a=a: evaluate(
+            vh, "replay", ["-scripts", pp, "-workers", "16"], os.path.join(work, "forced%d.ndjson" % a), what, part))
+    del scripts
+    sp2 = os.path.join(work, "scripts_sim.ndjson")
+    scripts2 = export_scripts(rs["sim"], sp2, first_sid=1000001)
+    nscripts2 = len(scripts2)
+    if scripts2:
+        thunks.append(lambda: evaluate(vh, "replay", ["-scripts", sp2, "-workers", "16"], os.path.join(work, "sim.ndjson"),
+                                       "forced replay of simulated behaviours of the larger model (seed %d)" % seed, scripts2))
+    nrounds, nper = (12, 3000) if thorough else (1, 1500)
+    for k in range(nrounds):
+        s = seed * 7919 + k
+        thunks.append(lambda s=s, k=k: evaluate(vh, "random", ["-seed", str(s), "-n", str(nper), "-workers", "16"],
+                                                os.path.join(work, "free%d.ndjson" % k),
+                                                "free-running randomised driver (seed %d)" % s))
+    if thorough:
+        for th in thunks:      # one part's recorded lines in memory at a time
+            fold(th())
+    else:
+        with cf.ThreadPoolExecutor(max_workers=3) as ex:
+            for f in [ex.submit(th) for th in thunks]:
+                fold(f.result())
+
+    violations = list(acc["violations"].values())
+    drift_steps, stuck, traces, lines, stimuli, cls = acc["drift_steps"], acc["stuck"], acc["traces"], acc["lines"], acc["stimuli"], acc["cls"]
 
     repo = None
     if thorough:
@@ -477,28 +514,28 @@ def run(pid, tier, seed, replay):
             print("DRIFT property=%s the hook lines recorded from the repository's own bidengine tests are not explained by the model" % pid,
                   file=sys.stderr, flush=True)
 
-    st = selftest(results[0])
-    if not st["ok"]:
+    st = acc["st"] or {"ok": False, "why": "no recorded execution that satisfies C13 and has both Unreserve and CreateBid"}
+    if not st["ok"] and not violations:
         raise vlib.Inconclusive("binding self-test failed: %r" % st)
 
     if stuck and not violations:
         raise vlib.Inconclusive("%d execution(s) did not terminate / could not be run, e.g. %s: %r" % (len(stuck), stuck[0][0], stuck[0][1]))
 
-    sample_ids = sorted(scripts)[:3]
     coverage = {
         "states": rs["free"].distinct, "transitions": rs["free"].generated,
         "configs": {
-            "free (every interleaving, safety+termination)": {"distinct": rs["free"].distinct, "generated": rs["free"].generated, "depth": rs["free"].depth, "constants": free_kw or "MaxFail=1 MaxIgnored=1 MaxQ=2 Prices={1,46,47}"},
+            "free (every interleaving; safety, and termination in the thorough tier)": {"distinct": rs["free"].distinct, "generated": rs["free"].generated, "depth": rs["free"].depth, "constants": free_kw or "MaxFail=1 MaxIgnored=1 MaxQ=2 Prices={1,46,47}"},
             "asfound (model self-check, must violate C13Released)": {"violated": rs["asfound"].violated, "depth": rs["asfound"].depth},
-            "quiet (forced schedules, exported)": {"distinct": rs["quiet"].distinct, "behaviours": len(scripts)},
-            "sim (larger forced model, -simulate)": {"behaviours": len(scripts2)},
+            "quiet (forced schedules, exported)": {"distinct": rs["quiet"].distinct, "behaviours": nscripts},
+            "sim (larger forced model, -simulate)": {"behaviours": nscripts2},
         },
         "traces_validated_against_impl": traces,
         "evaluations": lines,
         "stimuli_applied": stimuli,
         "distinct_nontrivial": len(cls),
         "distinct_nontrivial_rule": "distinct (start mode, last select case taken, set of results unconsumed when the loop exited, calls made after the exit with their results) among the executions of the real monitor",
-        "samples": [json.dumps(scripts[i]) for i in sample_ids],
+        "samples": samples,
+        "parts": acc["parts"],
         "exhaustive": True,
         "exhaustive_note": "every terminated behaviour of the forced-schedule model within the stated constants was replayed on the real code; simulation and the random driver are samples",
         "drift_steps": drift_steps,
